@@ -48,18 +48,28 @@ func checkEOMWholeBuffer(c *Ctx, r *Report) {
 			return
 		}
 		o := CalleeObj(call)
-		if o == nil || o.Pkg() == nil || o.Pkg().Path() != "regexp" || len(call.Call.Args) < 2 {
-			return
+		var arg ssa.Value
+		if o != nil && o.Pkg() != nil && o.Pkg().Path() == "regexp" && len(call.Call.Args) >= 2 {
+			if f, _, ok := fieldLoad(call.Call.Args[0]); !ok || f != pp {
+				return
+			}
+			if o.Name() != "Match" && o.Name() != "Find" && o.Name() != "FindIndex" && o.Name() != "MatchString" {
+				return
+			}
+			arg = stripConv(call.Call.Args[1])
+		} else if isDelimiterTest(call, pp, 0) {
+			// the test lives in a helper of the reader: what the helper is given is what is tested
+			for _, a := range call.Call.Args {
+				if elemBasicKind(a.Type()) == "byte" || elemBasicKind(a.Type()) == "uint8" {
+					arg = stripConv(a)
+				}
+			}
 		}
-		if f, _, ok := fieldLoad(call.Call.Args[0]); !ok || f != pp {
-			return
-		}
-		if o.Name() != "Match" && o.Name() != "Find" && o.Name() != "FindIndex" && o.Name() != "MatchString" {
+		if arg == nil {
 			return
 		}
 		n++
 		construct := fmt.Sprintf("end-of-message test #%d in %s", n, shortFn(read))
-		arg := stripConv(call.Call.Args[1])
 		// leaves of the argument (through phis): the accumulation itself, what is left of it after the echo was cut
 		// off its FRONT (both are "everything from some message boundary to the end"), or -- the defect -- a window
 		// taken from the TAIL (a slice whose low bound is computed from the length)
